@@ -152,6 +152,14 @@ def run(tier, seed):
                 node.update(name=scopes.T(rng.choice(["F", f"f{i}"])), size=rng.choice([0, 1, 11, 12, 16, 17]))
             nodes.append(node)
         extra.append(nodes)
+    # every name of <= 3 characters over {".", "a", a two-byte letter} (and a few longer ones) on a record, an enum and a fixed: dots in every
+    # position, empty components, components that end inside a multi-byte character when an index is off by one
+    import itertools
+    odd_names = ["".join(t) for n_ in (1, 2, 3) for t in itertools.product(".a\u00e9", repeat=n_)] + ["....", ".a.b", ".a.b.", "..a", "a.b.", ".\u00e9.\u00e9", ".a.\U0001F600", "\U0001F600."]
+    for nm in odd_names:
+        extra.append([{"k": "record", "lt": "none", "name": scopes.T(nm), "fields": [{"n": scopes.T("f"), "t": 2}]}, {"k": "long", "lt": "none"}])
+        extra.append([{"k": "enum", "lt": "none", "name": scopes.T(nm), "symbols": [scopes.T("A")]}])
+        extra.append([{"k": "fixed", "lt": "none", "name": scopes.T(nm), "size": 2}])
     # records whose schema repeats a field name (they can be built and frozen): using them must stay safe
     for names in (["a", "a", "b", "c"], ["a", "b", "a"], ["x", "x"], ["a", "b", "b", "c", "c"]):
         extra.append([{"k": "record", "lt": "none", "name": scopes.T("Dup"), "fields": [{"n": scopes.T(nm), "t": 2} for nm in names]}, {"k": "long", "lt": "none"}])
